@@ -125,8 +125,16 @@ def frame (a : FrameArgs) : Outcome :=
   else if hasDup ((a.sf ++ a.cf).filterMap (·.name)) then .valueError
   else .ok
 
-def parity (dGiven rGiven : Bool) (ratio : Rat) : Outcome :=
-  if parityCtor dGiven rGiven ratio then .ok else .valueError
+/-- `UtilityParity.__init__` with the trailing slack guard present (`guard = true`) or absent: the if/elif chain on the
+    bounds (lifted `parityCtor`), then `if self.eps < 0: raise` on the value the chain stored (lifted `parityEps`) -/
+def parityWith (guard : Bool) (dGiven rGiven : Bool) (ratio diff slack : Rat) : Outcome :=
+  if !parityCtor dGiven rGiven ratio then .valueError
+  else if guard && decide (parityEps dGiven rGiven diff slack < 0) then .valueError
+  else .ok
+
+/-- the constructor of the parity moments as it is in the source (guard flag lifted) -/
+def parity (dGiven rGiven : Bool) (ratio diff slack : Rat) : Outcome :=
+  parityWith slackMustBeNonneg dGiven rGiven ratio diff slack
 
 def costs (given isDict keysOk : Bool) (fp fn : Rat) : Outcome :=
   if errorRateCtor given isDict keysOk fp fn then .ok else .valueError
@@ -171,7 +179,7 @@ inductive Call where
   | mit (d : MitData)
   | thr (estimatorGiven : Bool) (constraints objective : String) (d : MitData)
   | frame (a : FrameArgs)
-  | parity (dGiven rGiven : Bool) (ratio : Rat)
+  | parity (dGiven rGiven : Bool) (ratio diff slack : Rat)   -- diff / slack: values of difference_bound / ratio_bound_slack
   | costs (given isDict keysOk : Bool) (fp fn : Rat)
   | gs (isMoment ruleOk : Bool) (cw : Rat)
   | predict (fitted : Bool)
@@ -185,7 +193,7 @@ def run : Call → Outcome
   | .mit d => mitFit d
   | .thr e c o d => toFit e c o d
   | .frame a => frame a
-  | .parity d r q => parity d r q
+  | .parity d r q df sl => parity d r q df sl
   | .costs g d k fp fn => costs g d k fp fn
   | .gs m r cw => gridSearch m r cw
   | .predict f => predict f
@@ -213,7 +221,7 @@ def parseBools := Proto.parseList Proto.parseBool
   `val.mit <n> <y|none> <sf|none> <cf|none>`
   `val.to <estimatorGiven> <constraints> <objective> <n> <y|none> <sf|none> <cf|none>`
   `val.frame <nTrue> <nPred> <paramLens> <sfNames> <sfIsStr> <sfLens> <cfNames> <cfIsStr> <cfLens>`
-  `val.parity <dGiven> <rGiven> <ratio>`     `val.costs <given> <isDict> <keysOk> <fp> <fn>`
+  `val.parity <dGiven> <rGiven> <ratio> <difference_bound> <ratio_bound_slack>`     `val.costs <given> <isDict> <keysOk> <fp> <fn>`
   `val.gs <isMoment> <ruleOk> <cw>`          `val.predict <fitted>`
   `val.corrfit <cols> <ids>`                 `val.corrtransform <fitted> <mFit> <mNew>`
   `val.predictm <class> <method> <fitted>`   `val.topredict <fitted> <sfGiven> <nX> <nSf>`
@@ -232,8 +240,9 @@ def handle (toks : List String) : Option String :=
     let sf ← mkCols (← Proto.parseStrs sn) (← parseBools ss) (← Proto.parseNats sl)
     let cf ← mkCols (← Proto.parseStrs cn) (← parseBools cs) (← Proto.parseNats cl)
     pure (frame ⟨← Proto.parseNat nt, ← Proto.parseNat np, ← Proto.parseNats ps, sf, cf⟩).fmt
-  | ["val.parity", d, r, q] => do
-    pure (parity (← Proto.parseBool d) (← Proto.parseBool r) (← Proto.parseRat q)).fmt
+  | ["val.parity", d, r, q, df, sl] => do
+    pure (parity (← Proto.parseBool d) (← Proto.parseBool r) (← Proto.parseRat q) (← Proto.parseRat df)
+      (← Proto.parseRat sl)).fmt
   | ["val.costs", g, d, k, fp, fn] => do
     pure (costs (← Proto.parseBool g) (← Proto.parseBool d) (← Proto.parseBool k) (← Proto.parseRat fp)
       (← Proto.parseRat fn)).fmt
